@@ -192,12 +192,18 @@ func rsCases(thorough bool) {
 		for m := 0; m <= 4; m++ {
 			n := k + m
 			rule := iec.Rule{DataPartNum: uint8(k), ParityPartNum: uint8(m)}
-			lens := []int{0, 1, k - 1, k, k + 1, 2*k + 1, 1 + rnd.Intn(64)}
-			for range nBig {
-				lens = append(lens, 65+rnd.Intn(maxBig-64))
+			lens := []int{0, 1, k + 1, 2*k + 1, 1 + rnd.Intn(64)}
+			if thorough || (k+m)%3 == 0 {
+				for range nBig {
+					lens = append(lens, 65+rnd.Intn(maxBig-64))
+				}
 			}
 			if thorough {
-				lens = append(lens, 4096, 4095, 3*k-1, 1+rnd.Intn(300), 1+rnd.Intn(300))
+				lens = append(lens, k-1, k, 4096, 4095, 3*k-1, 1+rnd.Intn(300), 1+rnd.Intn(300))
+			} else if rnd.Intn(2) == 0 {
+				lens = append(lens, k-1)
+			} else {
+				lens = append(lens, k)
 			}
 			slices.Sort(lens)
 			lens = slices.Compact(lens)
@@ -225,7 +231,7 @@ func rsCases(thorough bool) {
 						c.HashesOK = false
 					}
 				}
-				small := n <= 6 && ln <= 2*k+1 || thorough && n <= 8 && ln <= 2*k+1
+				small := n <= 5 && ln <= k+1 || thorough && n <= 8 && ln <= 2*k+1
 				if small {
 					// every erasure pattern with up to m parts missing, plus those with m+1 (must fail)
 					for miss := 0; miss <= m+1 && miss <= n; miss++ {
